@@ -163,24 +163,30 @@ _ORIGIN_TRUST = [
     'BTreeSet::{is_superset, extend}, the set of items of a Range / slice iterator (specs/origin_body.rs verif_sets), derived Default/Clone of Origin: assumed',
     'Origin::union (iterator adaptor code): assumed contract on the real signature',
 ]
+_LOADB = {'template': 'loadb.rs', 'rlimit': 30, 'items': [r'^token::builder::authorizer::load_and_translate_block$']}
+_LOADB_PROVED = (' Loading a block into the authorizer (load_and_translate_block, for every block, index, key map and every outcome of the symbol-table conversion oracles): every fact of block i is stored under origin '
+                 'exactly {i} and nothing else is added to the fact store; every rule of block i is stored as owned by block i with the trusted set of ITS OWN scopes over the default trust of the block '
+                 '(the block scopes over {authority, authorizer}, current block i), and nothing else is added to the rule store; existing facts and rules are kept; the key -> block map is not modified; '
+                 'facts, rules, scopes and checks of a third-party block (external key, i > 0) are read with the block\'s own symbol table, those of every other block with the token\'s.')
+_LOADB_ASSUME = ['unit loadb: FactSet::insert / RuleSet::insert add exactly the given (origin, fact) / (block, trusted set, rule) entry; conversions between symbol tables are functions of (object, source table) - interning in the target table is not modelled; Rule::validate_variables returns']
 PROPS['C03'] = {
-    'units': [{'template': 'origin.rs', 'rlimit': 30, 'items': [r'^datalog::origin::']}],
+    'units': [{'template': 'origin.rs', 'rlimit': 30, 'items': [r'^datalog::origin::']}, _LOADB],
     'proved': 'TrustedOrigins::from_scopes returns, for all scope lists, block indices and key maps, exactly the set trusted_spec of the Biscuit scoping rules '
               '(membership predicate); TrustedOrigins::default = {authority, authorizer}; contains = subset test. Lemmas over the specification: L1 default trust of block i is exactly '
               '{0, i, authorizer}; L2 (attenuation) a later block j is never in the trusted set of anything loaded from block i <= j or from the authorizer unless a scope of the rule or of '
               'its block names a key under which j is registered; L3 previous = {0..=i} + authorizer; L4 a key scope adds exactly the blocks registered under it; L5 visibility is monotone '
-              'in the scope and antitone in the fact origin.',
+              'in the scope and antitone in the fact origin.' + _LOADB_PROVED,
     'not_covered': ['the other half of C03: derived-fact origin = union of matched origins + rule block (Rule::apply / CombineIt::next) and the filtering of facts by contains() before matching '
                     '(FactSet::iterator) live in Box<dyn Iterator> + closure code neither verifier ingests; the end-to-end implication "extended token authorized => original authorized" is NOT proved',
                     'construction of public_key_to_block_id (HashMap::entry code in AuthorizerBuilder)'],
-    'assumptions': _ORIGIN_TRUST,
+    'assumptions': _ORIGIN_TRUST + _LOADB_ASSUME,
     'level_text': 'Deductive proof of the trust-scope half of the property: every trusted-origin set the engine is handed equals the specification set, for all inputs, plus machine-checked lemmas stating '
                   'the attenuation consequences over that specification. The provenance half (engine) is outside this technique here and is stated as not covered.',
 }
 PROPS['C04'] = {
     'units': [{'template': 'origin.rs', 'rlimit': 30, 'items': [r'^datalog::origin::']},
               {'template': 'authz.rs', 'rlimit': 60, 'items': [r'^token::authorizer::Authorizer::authorize_inner$']},
-              {'template': 'engine.rs', 'rlimit': 30, 'items': [r'^datalog::(Rule::(find_match|check_match_all)|World::(query_match|query_match_all))$']}],
+              {'template': 'engine.rs', 'rlimit': 30, 'items': [r'^datalog::(Rule::(find_match|check_match_all)|World::(query_match|query_match_all))$']}, _LOADB],
     'proved': 'scope -> trusted origins: from_scopes equals trusted_spec for all inputs (authority, own block and authorizer by default; changed only by `trusting authority`, `previous` or a public key), '
               'contains is the subset test deciding fact visibility. Decision composition (Authorizer::authorize_inner, for EVERY outcome of the engine oracles): every query is evaluated under exactly the specification '
               'trusted set of its position (authorizer checks and policies: authorizer scopes, origin authorizer; authority checks: block 0; checks of block b: block b); on Ok(i) every authorizer, authority and block check '
@@ -188,14 +194,18 @@ PROPS['C04'] = {
               'alternative and it is an allow policy; NoMatchingPolicy is returned only when no policy matches; Unauthorized{Allow(i) | Deny(i)} only when i is the first matching policy of that kind; nothing but the symbol '
               'table is modified. Engine entry points (unit engine, relative to oracles for the join iterator, Rule::apply and expression evaluation): World::query_match / query_match_all hand their arguments unchanged to '
               'Rule::find_match / check_match_all; find_match is Ok(true) iff the rule application yields a first item that is a fact, Ok(false) iff it yields nothing, and the expression error otherwise; check_match_all is Ok(true) iff the body '
-              'has AT LEAST ONE match and every match satisfies every expression (evaluated in order, each match with a fresh temporary symbol table), Ok(false) at the first false expression, InvalidType for a non-boolean one.',
+              'has AT LEAST ONE match and every match satisfies every expression (evaluated in order, each match with a fresh temporary symbol table), Ok(false) at the first false expression, InvalidType for a non-boolean one.' + _LOADB_PROVED,
     'not_covered': ['the join (CombineIt) and Rule::apply (closures over it): oracles; how the oracles m_one / m_all of unit authz relate to the oracles of unit engine is by name only (both describe World::query_match*)', 'the exact list and order of the failed checks in the error value',
                     'builder -> Datalog conversion and symbol interning (oracles: the Datalog object is a function of the builder object)', 'query / query_all scoping (generic signatures not brought through Verus)'],
-    'assumptions': _ORIGIN_TRUST + ['World::query_match / query_match_all return what the oracles m_one / m_all say for (query, origin, trusted set); Check::convert / Rule::convert / scope conversion are functions of their argument',
+    'assumptions': _ORIGIN_TRUST + _LOADB_ASSUME + ['World::query_match / query_match_all return what the oracles m_one / m_all say for (query, origin, trusted set); Check::convert / Rule::convert / scope conversion are functions of their argument',
                                     'time (Instant) is an uninterpreted input: a Timeout error may be returned at any check', 'Authorizer.blocks, when present, holds at least the authority block (requires blocks_nonempty)'],
     'level_text': 'Deductive proof of the scope computation and of the decision composition over all oracle outcomes; the engine answering the oracles is not verified.',
 }
 
+PROPS['C07']['units'].append(_LOADB)
+PROPS['C07']['proved'] += (' Authorizer level (load_and_translate_block): the facts, rules, scopes and checks of a third-party block are read with the block\'s own symbol table and stored under origin {i} only, '
+    'so they are visible only to scopes that trust block i; loading a block never modifies the key -> block map.')
+PROPS['C07']['assumptions'] = PROPS['C07']['assumptions'] + _LOADB_ASSUME
 PROPS['C16'] = {
     'units': [{'template': 'schema.rs', 'rlimit': 30, 'items': [r'^datalog::']},
               {'template': 'convert.rs', 'rlimit': 30, 'items': [r'^format::convert::proto_block_to_token_block$']},
